@@ -10,7 +10,7 @@ REPO = os.environ.get('VERIF_REPO', '/repo')
 
 def kani_lemmas(prop, tier, work):
     from . import kani
-    return kani.run(prop, work)
+    return kani.run(prop, work, tier=tier)
 
 
 def _canary(gen):
